@@ -31,7 +31,7 @@ CONSTANTS
 
 VARIABLES
   cells,    \* Seq of [items : Seq(item)]    item: id | kw | op | qual | ref (Add(s)) | grp (operands are cells)
-  files,    \* Seq of [local, prefix, noformat, hints, imps, body : Seq(cell), anons, claims]
+  files,    \* Seq of [local, prefix, noformat, hints, imps, body : Seq(cell id, or -g: File g added as a Code value), anons, claims]
   ntok,     \* fresh identifier counter
   obs,      \* last observation
   bound,    \* history: file -> path -> qualifier first seen in any output produced with the File
@@ -135,6 +135,14 @@ CloneCell(c) == /\ Step /\ Len(cells) < MaxCells /\ H("Clone", 0, c, 0, "", "", 
 FileAdd(f, c) == /\ Step /\ Len(files[f].body) < MaxItems /\ H("FileAdd", f, c, 0, "", "", <<>>)
                  /\ files' = [files EXCEPT ![f].body = Append(@, c)]
                  /\ UNCHANGED <<cells, ntok, obs, bound>>
+\* f.Add(g) with g a *File: a File is a Code value (its Group); it renders its items, one per line, inside f and with
+\* f's registry - g's own settings and import table play no role there, and g is not changed
+RECURSIVE FReach(_, _)
+FReach(fs, g) == {g} \cup UNION {FReach(fs, -fs[g].body[i]) : i \in {j \in DOMAIN fs[g].body : fs[g].body[j] < 0}}
+FileAddFile(f, g) == /\ Step /\ Len(files[f].body) < MaxItems /\ f \notin FReach(files, g)
+                     /\ H("FileAddFile", f, 0, g, "", "", <<>>)
+                     /\ files' = [files EXCEPT ![f].body = Append(@, -g)]
+                     /\ UNCHANGED <<cells, ntok, obs, bound>>
 \* (Do...: the call itself; the guards of ImportName / Anon are the DOMAIN of the listed properties - no false claim about a
 \*  standard-library package, one name per package, no Anon of an already referenced path or of the File's own path)
 DoImportName(f, p, n) ==
@@ -163,7 +171,12 @@ FC == [name |-> "main", canonicalq |-> "", headers |-> <<>>, comments |-> <<>>, 
 Toks(ps) == LET q == SelectSeq(ps, LAMBDA x : x.c \in {"t", "pk"} /\ x.s # "") IN [i \in DOMAIN q |-> q[i].s]
 Bind(b, refs, bare) == [p \in DOMAIN b \cup {r[1] : r \in refs} \cup bare |->
                           IF p \in DOMAIN b THEN b[p] ELSE IF p \in bare THEN "" ELSE (CHOOSE r \in refs : r[1] = p)[2]]
-BodyTrees(f) == [i \in DOMAIN files[f].body |-> Tree(cells, files[f].body[i])]
+RECURSIVE BodyTrees(_)
+BodyTrees(f) == [i \in DOMAIN files[f].body |->
+                   IF files[f].body[i] > 0 THEN Tree(cells, files[f].body[i])
+                   ELSE Custom("", "", "", TRUE, BodyTrees(-files[f].body[i]))]
+RECURSIVE BodyCells(_)
+BodyCells(f) == UNION {IF files[f].body[i] > 0 THEN {files[f].body[i]} ELSE BodyCells(-files[f].body[i]) : i \in DOMAIN files[f].body}
 
 RenderFileStep(f) ==
   /\ Step /\ H("Render", f, 0, 0, "", "", <<>>)
@@ -207,6 +220,7 @@ Next ==
   \/ \E f \in DOMAIN files, c \in DOMAIN cells : FileAdd(f, c) \/ RenderFragStep(c, f)
   \/ \E f \in DOMAIN files, p \in Paths : Anon(f, p) \/ \E n \in HintNames : ImportAlias(f, p, n) \/ (n # "." /\ ImportName(f, p, n))
   \/ \E f \in DOMAIN files : RenderFileStep(f)
+  \/ \E f, g \in DOMAIN files : FileAddFile(f, g)
   \/ \E c \in DOMAIN cells : RenderPlainStep(c)
   \/ Finish
 Spec == Init /\ [][Next]_vars
